@@ -8,6 +8,8 @@ package main
 import (
 	"fmt"
 	"math"
+	"runtime"
+	"sort"
 	"strings"
 	"time"
 
@@ -48,6 +50,82 @@ type Rec struct {
 	nextID    int
 	fonts     map[backend.Font]int
 	fontReg   map[int]bool
+	// harness side shadow of the per canvas path state: only used to attach the
+	// Go call site to the violations the Coq monitor reports (tags of known findings)
+	path  map[int]*pathState
+	viols []Viol
+}
+
+type pathState struct{ hasPath, hasPoint bool }
+
+// Viol is a protocol violation seen by the shadow, with the /repo call site.
+type Viol struct {
+	I    int
+	Rule int
+	What string
+	Site string
+}
+
+func (r *Rec) ps(c int) *pathState {
+	if r.path == nil {
+		r.path = map[int]*pathState{}
+	}
+	if r.path[c] == nil {
+		r.path[c] = &pathState{}
+	}
+	return r.path[c]
+}
+
+// first frame of the call stack inside /repo
+func repoSite() string {
+	pcs := make([]uintptr, 32)
+	n := runtime.Callers(3, pcs)
+	frames := runtime.CallersFrames(pcs[:n])
+	for {
+		f, more := frames.Next()
+		if strings.HasPrefix(f.File, "/repo/") {
+			fn := f.Function
+			if i := strings.LastIndex(fn, "/"); i >= 0 {
+				fn = fn[i+1:]
+			}
+			if i := strings.Index(fn, ".func"); i >= 0 { // closures
+				fn = fn[:i]
+			}
+			return strings.TrimPrefix(f.File, "/repo/") + ":" + fn
+		}
+		if !more {
+			return "?"
+		}
+	}
+}
+
+func (r *Rec) viol(rule int, what string) {
+	r.viols = append(r.viols, Viol{I: len(r.Ev), Rule: rule, What: what, Site: repoSite()})
+}
+
+func (r *Rec) shadow() []Viol { return r.viols }
+
+// tags of the violations of one rule: one per site, and "rule<r>-only@<site>"
+// when every violation of the rule comes from that single site
+func (r *Rec) shadowTags(rule int) []string {
+	seen := map[string]bool{}
+	var out, sites []string
+	for _, v := range r.viols {
+		if v.Rule != rule {
+			continue
+		}
+		t := fmt.Sprintf("rule%d@%s", v.Rule, v.Site)
+		if !seen[t] {
+			seen[t] = true
+			out = append(out, t)
+			sites = append(sites, v.Site)
+		}
+	}
+	if len(sites) == 1 {
+		out = append(out, fmt.Sprintf("rule%d-only@%s", rule, sites[0]))
+	}
+	sort.Strings(out)
+	return out
 }
 
 type RecLink struct {
@@ -65,7 +143,15 @@ func NewRec() *Rec {
 	return &Rec{Meta: map[string][]string{}, fonts: map[backend.Font]int{}, fontReg: map[int]bool{}}
 }
 
-func (r *Rec) add(e Ev) { r.Ev = append(r.Ev, e) }
+func (r *Rec) add(e Ev) {
+	for _, x := range e.Nums {
+		if !finite(x) {
+			r.viols = append(r.viols, Viol{I: len(r.Ev), Rule: 2, What: "non finite argument", Site: repoSite()})
+			break
+		}
+	}
+	r.Ev = append(r.Ev, e)
+}
 
 func (r *Rec) fontID(f backend.Font) int {
 	if id, ok := r.fonts[f]; ok {
@@ -224,13 +310,45 @@ func (c *canvas) DrawWithOpacity(opacity Fl, group backend.Canvas) {
 }
 
 func (c *canvas) Paint(op backend.PaintOp) {
+	if st := c.rec.ps(c.id); !st.hasPath {
+		c.rec.viol(3, "Paint without a current path")
+	} else {
+		st.hasPath, st.hasPoint = false, false
+	}
 	c.rec.add(Ev{Op: "CPaint", C: c.id, G: int(op), HasG: true})
 }
-func (c *canvas) Rectangle(x, y, w, h Fl)           { c.ev("CRect", x, y, w, h) }
-func (c *canvas) MoveTo(x, y Fl)                    { c.ev("CMoveTo", x, y) }
-func (c *canvas) LineTo(x, y Fl)                    { c.ev("CLineTo", x, y) }
-func (c *canvas) CubicTo(x1, y1, x2, y2, x3, y3 Fl) { c.ev("CCubicTo", x1, y1, x2, y2, x3, y3) }
-func (c *canvas) ClosePath()                        { c.ev("CClosePath") }
+func (c *canvas) Rectangle(x, y, w, h Fl) {
+	st := c.rec.ps(c.id)
+	st.hasPath, st.hasPoint = true, true
+	c.ev("CRect", x, y, w, h)
+}
+
+func (c *canvas) MoveTo(x, y Fl) {
+	st := c.rec.ps(c.id)
+	st.hasPath, st.hasPoint = true, true
+	c.ev("CMoveTo", x, y)
+}
+
+func (c *canvas) LineTo(x, y Fl) {
+	if !c.rec.ps(c.id).hasPoint {
+		c.rec.viol(5, "LineTo without a current point")
+	}
+	c.ev("CLineTo", x, y)
+}
+
+func (c *canvas) CubicTo(x1, y1, x2, y2, x3, y3 Fl) {
+	if !c.rec.ps(c.id).hasPoint {
+		c.rec.viol(5, "CubicTo without a current point")
+	}
+	c.ev("CCubicTo", x1, y1, x2, y2, x3, y3)
+}
+
+func (c *canvas) ClosePath() {
+	if !c.rec.ps(c.id).hasPoint {
+		c.rec.viol(6, "ClosePath without a current point")
+	}
+	c.ev("CClosePath")
+}
 func (c *canvas) AddFont(font backend.Font, content []byte) *backend.FontChars {
 	id := c.rec.fontID(font)
 	c.rec.fontReg[id] = true
@@ -281,6 +399,11 @@ func (g *gstate) SetAlphaMask(mask backend.Canvas) {
 }
 
 func (g *gstate) Clip(evenOdd bool) {
+	if st := g.rec.ps(g.id); !st.hasPath {
+		g.rec.viol(4, "Clip without a current path")
+	} else {
+		st.hasPath, st.hasPoint = false, false
+	}
 	k := 0
 	if evenOdd {
 		k = 1
